@@ -688,4 +688,88 @@ theorem docD_x (p : Prog) (norm : Str → Str) (cif : Bool) (d : Doc) (fuel : Na
     · simp only [hok, if_false, cifEnd_atb]
       exact ⟨trivial, rfl, trivial⟩
 
+-- ---- all-continue handlers: the dropped columns of a loop whose header repeats names -----------------------------------------------
+
+/-- the slots of a header checked against a container holding `c` (`none` = a dropped duplicate) -/
+def slotsOf (norm : Str → Str) (c : Content) : List Str → List (Option Str) → List (Option Str)
+  | [], acc => acc
+  | nm :: ns, acc =>
+    if hasName norm c nm || acc.any (slotIs norm nm) then slotsOf norm c ns (acc ++ [none]) else slotsOf norm c ns (acc ++ [some nm])
+
+/-- the callbacks of the header: a data-name callback per name, followed by the error callback for a duplicate -/
+def hdrEvs (norm : Str → Str) (c : Content) : List Str → List (Option Str) → List Ev
+  | [], _ => []
+  | nm :: ns, acc =>
+    if hasName norm c nm || acc.any (slotIs norm nm) then .dataname nm :: errEv CIF_DUP_ITEMNAME :: hdrEvs norm c ns (acc ++ [none])
+    else .dataname nm :: hdrEvs norm c ns (acc ++ [some nm])
+
+theorem hdrD_allCont (norm : Str → Str) (c : Content) : ∀ (names : List Str) (s : St) (acc : List (Option Str)), s.skip = 0 →
+    hdrD norm true c names s acc = (slotsOf norm c names acc, adv s (hdrEvs norm c names acc))
+  | [], s, acc, _ => by simp [hdrD, slotsOf, hdrEvs, adv_nil]
+  | nm :: ns, s, acc, h0 => by
+    simp only [hdrD, slotsOf, hdrEvs, h0, Int.le_refl, if_true, Bool.true_and]
+    by_cases hd : (hasName norm c nm || acc.any (slotIs norm nm)) = true
+    · simp only [hd, if_true]
+      rw [hdrD_allCont norm c ns _ _ (by simp [report, ParseCB.note, h0]), note_adv _ _ rfl, report_adv, adv_adv, adv_adv]
+      rfl
+    · simp only [hd, Bool.false_eq_true, if_false]
+      rw [hdrD_allCont norm c ns _ _ (by simp [ParseCB.note, h0]), note_adv _ _ rfl, adv_adv]
+      rfl
+
+/-- the item callbacks of a packet: the retained columns only -/
+def itemEvsD (slots : List (Option Str)) : Nat → List V → List Ev
+  | _, [] => []
+  | col, v :: vs => (match slots.getD col none with | some nm => [Ev.item nm v] | none => []) ++ itemEvsD slots (col + 1) vs
+
+theorem xRowD_allCont (slots : List (Option Str)) : ∀ (vals : List V) (col : Nat) (s : St), s.skip = 0 →
+    xRowD allContP slots col vals s = (OK, adv s (itemEvsD slots col vals))
+  | [], col, s, _ => by simp [xRowD, itemEvsD, adv_nil]
+  | v :: vs, col, s, h0 => by
+    simp only [xRowD, itemEvsD]
+    cases hs : slots.getD col none with
+    | none =>
+      simp only [itemStepD, if_true, List.nil_append]
+      exact xRowD_allCont slots vs (col + 1) s h0
+    | some nm =>
+      simp only [itemStepD, itemStep, h0, Int.le_refl, and_self, if_true, site_allCont]
+      rw [xRowD_allCont slots vs (col + 1) _ (by simp [push, h0]), push_adv _ _ rfl, adv_adv]
+
+def pktEvsD (slots : List (Option Str)) (pk : List V) : List Ev :=
+  Ev.pktStart :: (itemEvsD slots 0 pk ++ [Ev.pktEnd (List.zip (slots.filterMap id) (keptD slots 0 pk))])
+
+theorem xPacketsD_allCont (slots : List (Option Str)) : ∀ (pks : List (List V)) (s : St) (acc : List (List V)), s.skip = 0 →
+    xPacketsD allContP true slots pks s acc = (OK, adv s (pks.map (pktEvsD slots)).flatten, acc ++ pks.map (keptD slots 0))
+  | [], s, acc, _ => by simp [xPacketsD, adv_nil]
+  | pk :: pks, s, acc, h0 => by
+    have hpk : xPkD allContP slots 0 [] pk s = (OK, adv s (pktEvsD slots pk), true) := by
+      unfold xPkD
+      simp only [if_true, pktStartStep, h0, Int.lt_irrefl, gt_iff_lt, if_false, site_allCont, ne_eq, not_true_eq_false,
+        xRowD_allCont slots pk 0 (push s .pktStart) (by simp [push, h0]), List.nil_append, pktEndStep, adv_skip, push_skip,
+        allContP, decide_true]
+      rw [push_adv s _ rfl, push_adv _ (Ev.pktEnd _) rfl, adv_adv, adv_adv]
+      simp [pktEvsD]
+    simp only [xPacketsD, hpk, ne_eq, not_true_eq_false, if_false, Bool.and_self, if_true]
+    rw [xPacketsD_allCont slots pks _ _ (by simp [h0]), adv_adv]
+    simp
+
+/-- **a loop whose header repeats names, all-continue handlers, a container**: data-name callbacks with the error callback behind
+    every duplicate, loop_start with the retained names, per packet packet_start, the item callbacks of the retained columns only,
+    packet_end with the retained items, loop_end; the loop is stored with the retained names and values -/
+theorem xLoopD_allCont (norm : Str → Str) (c : Content) (names : List Str) (pks : List (List V)) (s : St) (h0 : s.skip = 0)
+    (hk : ((slotsOf norm c names []).filterMap id).isEmpty = false) :
+    xLoopD allContP norm true c names pks s
+      = (OK, adv s (hdrEvs norm c names [] ++ (Ev.loopStart ((slotsOf norm c names []).filterMap id)
+            :: ((pks.map (pktEvsD (slotsOf norm c names []))).flatten
+              ++ [Ev.loopEnd (some ((slotsOf norm c names []).filterMap id))]))),
+         some { category := none, names := (slotsOf norm c names []).filterMap id,
+                packets := pks.map (keptD (slotsOf norm c names []) 0) }) := by
+  unfold xLoopD
+  simp only [inc0 s h0, hdrD_allCont norm c names s [] h0, hk, Bool.false_eq_true, if_false, loopStartStep, adv_skip, h0,
+    Int.le_refl, if_true, site_allCont, allContP, decide_true, Bool.and_self]
+  rw [xPacketsD_allCont _ pks _ [] (by simp [h0])]
+  simp only [loopEndStep, adv_skip, push_skip, h0, Int.lt_irrefl, gt_iff_lt, if_false, if_true, site_allCont,
+    List.nil_append]
+  rw [push_adv _ (Ev.loopStart _) rfl, push_adv _ (Ev.loopEnd _) rfl, adv_adv, adv_adv, adv_adv]
+  simp
+
 end CifModel.Lemmas.ParseCB
